@@ -95,7 +95,8 @@ def gen_method(rng, nslots=None, misaligned=False, allow_new=True, max_tries=5, 
         r = rng.random()
         last = i == n - 1
         if last:
-            k = rng.choice(["return", "return", "throw", "goto"])
+            # (an `if` as the very last instruction: its fall-through runs off the end of the code - not a successor)
+            k = rng.choice(["return", "return", "return", "throw", "goto", "goto", "if"]) if wild_targets else rng.choice(["return", "return", "throw", "goto"])
         elif r < 0.55:
             k = "plain"
         elif r < 0.63:
@@ -135,6 +136,8 @@ def gen_method(rng, nslots=None, misaligned=False, allow_new=True, max_tries=5, 
                 tg[-1] = (i + 1) % n  # a case that coincides with the fall-through
             s["targets"] = tg
             s["share"] = None
+            # one case of a few switches leaves the method (before the first / behind the last code unit) while the other cases are ordinary
+            s["wild_case"] = (rng.randrange(cnt), rng.choice(["neg", "past"])) if (wild_targets and cnt and rng.random() < 0.12) else None
         elif k == "fill":
             s["width"] = rng.choice([1, 2, 4, 8])
             s["data"] = bytes(rng.randrange(256) for _ in range(s["width"] * rng.choice([0, 1, 3, 4, 7])))
@@ -211,7 +214,7 @@ def gen_method(rng, nslots=None, misaligned=False, allow_new=True, max_tries=5, 
     offset_set = set(off)
     sw = [i for i, s in enumerate(slots) if s["kind"] == "switch"]
     for a in sw:
-        if slots[a]["share"] is not None:
+        if slots[a]["share"] is not None or slots[a].get("wild_case"):
             continue
         rel_a = [off[t] - off[a] for t in slots[a]["targets"]]
         for b in sw:
@@ -222,10 +225,17 @@ def gen_method(rng, nslots=None, misaligned=False, allow_new=True, max_tries=5, 
     pay_off = {}
     tail = []  # list of ("pad",) / ("payload", units)
     pos = body_units
+    def switch_rel(i, s):
+        rel = [off[t] - off[i] for t in s["targets"]]
+        if s.get("wild_case"):
+            pos_, how = s["wild_case"]
+            rel[pos_] = (-off[i] - rng.randint(1, 40)) if how == "neg" else (body_units - off[i] + 100000 + rng.randint(0, 40))
+        return rel
+
     def payload_units(i, s):
         if s["kind"] == "fill":
             return D.fill_array_payload(s["width"], s["data"])
-        rel = [off[t] - off[i] for t in s["targets"]]
+        rel = switch_rel(i, s)
         s["rel"] = rel
         if s["packed"]:
             return D.packed_switch_payload(rng.choice([0, -1, 100, -2 ** 31, 2 ** 31 - len(rel)]), rel)
@@ -246,7 +256,7 @@ def gen_method(rng, nslots=None, misaligned=False, allow_new=True, max_tries=5, 
             if s["kind"] == "fill":
                 u = D.fill_array_payload(s["width"], s["data"])
             else:
-                rel = [off[t] - off[i] for t in s["targets"]]
+                rel = switch_rel(i, s)
                 if s["packed"]:
                     u = D.packed_switch_payload(rng.choice([0, -1, 100, -2 ** 31, 2 ** 31 - len(rel)]), rel)
                 else:
@@ -366,6 +376,11 @@ def gen_method(rng, nslots=None, misaligned=False, allow_new=True, max_tries=5, 
     m.leaders = {x for x in leaders if 0 <= x < total_units * 2}
     m.switch_payload = {off[i] * 2: pay_off[i] * 2 for i, s in enumerate(slots) if s["kind"] in ("switch", "fill")}
     m.payload_kind = {off[i] * 2: ("fill" if s["kind"] == "fill" else "packed" if s["packed"] else "sparse") for i, s in enumerate(slots) if s["kind"] in ("switch", "fill")}
+    # valid but non-minimal LEB128 numbers inside the encoded_catch_handler_list (offsets of later handlers must come from the bytes read)
+    m.fat_leb = None
+    if tries and rng.random() < 0.25:
+        frng = __import__("random").Random(rng.getrandbits(32))
+        m.fat_leb = lambda: frng.choice([0, 0, 1, 2])
     m.features = {"tries": len(tries), "switch": any(s["kind"] == "switch" for s in slots), "fill": any(s["kind"] == "fill" for s in slots),
                   "shared_payload": any(s.get("share") is not None for s in slots), "misaligned": any(o % 2 for o in pay_off.values()) or any(s.get("bad_payload_offset") for s in slots),
                   "new_ops": any(s["kind"] == "plain" and D.NAME2OP[s["ins"][0]] >= 0xFA for s in slots), "slots": n,
@@ -386,6 +401,8 @@ def make_dex(methods, version=b"039"):
     for i, ms in enumerate(methods):
         nm = "m%d" % i
         names.append(nm)
-        c.add_method(nm, "V", (), W.ACC_STATIC | W.ACC_PUBLIC, W.Code(300, 0, 5, ms.insns, ms.tries))
+        code = W.Code(300, 0, 5, ms.insns, ms.tries)
+        code.fat_leb = getattr(ms, "fat_leb", None)
+        c.add_method(nm, "V", (), W.ACC_STATIC | W.ACC_PUBLIC, code)
     data, w = W.write_dex(model, want_writer=True)
     return data, w, names
